@@ -37,6 +37,11 @@ def main() -> int:
                 pass
     from vlib import graphgen, programs, registry
 
+    # The registry's example models are module-level objects of the plugin files, created when
+    # the plugins are first imported.  jax2onnx imports them lazily inside the first to_onnx call,
+    # so a history that *starts* with a double-precision export would build float64 example
+    # weights: a different request, not a different answer to the same request.  Load them now.
+    registry.corpus()
     reqs = list(cfg["requests"])
     order = cfg.get("order", "forward")
     if order == "reversed":
